@@ -13,9 +13,13 @@ UNITS_STUBS = [
     ('scinumtools.units.magnitude', 'float', stubs.Float),
     ('scinumtools.units.quantity', 'float', stubs.Float),
     ('scinumtools.units.unit_solver', 'float', stubs.Float),
+    ('scinumtools.units.magnitude', 'Decimal', stubs.DecimalStub),
+    ('scinumtools.units.quantity', 'Decimal', stubs.DecimalStub),
+    ('scinumtools.units.unit_types', 'Decimal', stubs.DecimalStub),
 ]
 UNITS_STUB_TEXT = [
     "name `float` in scinumtools.units.magnitude / .quantity / .unit_solver is symx.Float (isinstance accepts proxies, float(proxy) is the identity, sentinel numerals map to proxies)",
+    "name `Decimal` in the same modules and in unit_types is symx.DecimalStub: proxies of flavour SymDec count as decimal.Decimal so the library's Decimal branches run symbolically (the model does not reproduce Decimal's refusal of mixed float arithmetic)",
     "reals stand for binary64 floats: formula errors are found, rounding is outside the claim; counterexamples are replayed in real floats",
 ]
 
